@@ -117,9 +117,23 @@ def radix(repo: Repo, chk: Check) -> None:
             if isinstance(v, ast.Name) and "schedule" in v.id:
                 sb = a.expand(v)
                 hit = None
+                whole = None
                 for fact in a.facts:
-                    if fact.kind == "atom" and norm.any_match(["$r % $sb == 0", "not $r % $sb"], fact.expr, {"sb": sb}) is not None:
-                        hit = fact
+                    m_ = norm.any_match(["$r % $sb == 0", "not $r % $sb"], fact.expr, {"sb": sb}) if fact.kind == "atom" else None
+                    if m_ is not None:
+                        # what has to be divisible is what is LEFT of the dimension: its size divided by the tile bounds it already has
+                        r_ = fl.cone(m_["r"], a, inline=0)
+                        left = any(isinstance(n_, ast.BinOp) and isinstance(n_.op, ast.FloorDiv) and norm.contains(n_.left, T("$m.get_shape()[$d]"))
+                                   and any(isinstance(g_, (ast.GeneratorExp, ast.ListComp)) and norm.contains(g_, T("$x.bound")) for g_ in ast.walk(n_.right)) for n_ in ast.walk(r_))
+                        if left:
+                            hit = fact
+                        elif norm.contains(r_, T("$m.get_shape()[$d]")):
+                            whole = fact
+                if hit is None and whole is not None:
+                    chk.bad("C09.radix", f"{f.key}:tile-divides", a.where(),
+                            f"the schedule bound becomes a tile bound when it divides the WHOLE size of the dimension (`{whole.text[:80]}`), not what is left of it after the tile "
+                            "levels the dimension already has: the product of the tile bounds no longer equals the size and elements alias", a.fact_texts)
+                    continue
                 chk.result(hit is not None, "C09.radix", f"{f.key}:tile-divides", a.where(),
                            "the schedule bound becomes a tile bound only if it divides the remaining size of the dimension",
                            "a dimension is tiled by the schedule bound on a path where `remaining size % schedule bound == 0` is not established: "
